@@ -20,7 +20,7 @@ for a in F.items["adts"]:
     if a["kind"] != "struct" or a["path"].startswith("curve::"):
         continue
     fields = a["variants"][0]["fields"]
-    if not fields or all(f["name"].isdigit() for f in fields):
+    if not fields:
         continue
     out[a["path"]] = [[f["name"], norm_ty(f["ty"])] for f in fields]
 with open(os.path.join(ROOT, "spec", "state_fields.json"), "w") as f:
